@@ -335,11 +335,17 @@ def is_short(x):
     return not hasattr(x, '__len__') or len(x) < 2
 
 
+def _in(t, choices):
+    """the `in` of the reference: == against each choice (never hashing)"""
+    return any(t is c or t == c for c in choices)
+
+
 def check_cases(col):
-    targets = [1, 0, 2, -1, 'a', '', 'ab', 1.0, True, None, (1,), 2.5]
+    targets = [1, 0, 2, -1, 'a', '', 'ab', 1.0, True, None, (1,), 2.5, [1], {'a': 1}, [], {1, 2}]
     types = [None, int, str, (int, str), bool]
     insts = [None, int, (int, float), str, object]
-    vals = [None, ('equal_to', 1), ('equal_to', 'a'), ('one_of', (1, 2)), ('one_of', ['a', 'ab']), ('equal_to', None)]
+    vals = [None, ('equal_to', 1), ('equal_to', 'a'), ('one_of', (1, 2)), ('one_of', ['a', 'ab']), ('equal_to', None),
+            ('equal_to', [1]), ('one_of', ([1], {'a': 1}))]
     validators = [None, pos, [pos, is_short], is_short]
     defaults = [None, SENT]
     specs = [None, T['x']]
@@ -373,7 +379,7 @@ def check_cases(col):
             if inst is not None:
                 ok = ok and isinstance(t, inst)
             if val is not None:
-                ok = ok and (t in ((val[1],) if val[0] == 'equal_to' else val[1]))
+                ok = ok and _in(t, (val[1],) if val[0] == 'equal_to' else val[1])
             vlist = [] if vd is None else (vd if isinstance(vd, list) else [vd])
             if not conds:
                 vlist = [bool]   # a bare Check is a truthiness check
